@@ -29,6 +29,10 @@ pub mod managed;
 #[cfg_attr(docsrs, doc(cfg(feature = "unmanaged")))]
 pub mod unmanaged;
 
+#[cfg(deadpool_verif)]
+#[doc(hidden)]
+pub mod verif;
+
 pub use deadpool_runtime::{Runtime, SpawnBlockingError};
 
 /// The current pool status.
